@@ -44,21 +44,30 @@ type gimport struct {
 	Bind bool   `json:"bind"`
 }
 
+type grx struct {
+	To   string `json:"to"`
+	Kind string `json:"kind"` // star | named | rename | imex | ns
+}
+
 type gfile struct {
 	Name    string    `json:"name"`
 	Base    int       `json:"base"`
 	Exports bool      `json:"exports"`
+	Sfx     string    `json:"sfx"`  // suffix of the top-level names of the file
+	Dflt    bool      `json:"dflt"` // has a default export
 	Imports []gimport `json:"imports"`
 	Reexp   []string  `json:"reexp"`
+	Rx      []grx     `json:"rx"`
 	Dyn     []string  `json:"dyn"`
 }
 
 type expChunk struct {
-	Bits    []string   `json:"bits"`
-	Files   []string   `json:"files"`
-	Entry   string     `json:"entry"`
-	Static  [][]string `json:"static"`
-	Dynamic [][]string `json:"dynamic"`
+	Bits    []string    `json:"bits"`
+	Files   []string    `json:"files"`
+	Entry   string      `json:"entry"`
+	Static  [][]string  `json:"static"`
+	Dynamic [][]string  `json:"dynamic"`
+	Exports []expExport `json:"exports"` // the alias table the renamer model assigns
 }
 
 type expSubset struct {
@@ -71,6 +80,17 @@ type expExport struct {
 	Alias string `json:"alias"`
 	File  string `json:"file"`
 	Name  string `json:"name"`
+	Kind  string `json:"kind"` // v | c | bump | default | ns | peek | poke
+}
+
+// expRead is one thing the body of a module reads through a binding import
+type expRead struct {
+	Via    string `json:"via"`  // the imported module
+	Kind   string `json:"kind"` // triple | default | ns
+	File   string `json:"file"` // the declaring module
+	Alias  string `json:"alias"`
+	CAlias string `json:"calias"`
+	BAlias string `json:"balias"`
 }
 
 type expect struct {
@@ -79,12 +99,31 @@ type expect struct {
 	Chunks     []expChunk                 `json:"chunks"`
 	Shared     int                        `json:"shared"`
 	Val        map[string]int             `json:"val"`
+	Dval       map[string]int             `json:"dval"`
 	Effects    map[string][][]interface{} `json:"effects"`
 	Async      map[string][][]interface{} `json:"async"`
-	Binds      map[string][]string        `json:"binds"`
-	Exports    map[string][]expExport     `json:"exports"`
+	Reads      map[string][]expRead       `json:"reads"`
+	Tables     map[string][]expExport     `json:"tables"` // the resolved export table (namespace) of every live file
 	Closure    map[string][]string        `json:"closure"`
 	Subsets    []expSubset                `json:"subsets"`
+}
+
+// binds lists the modules whose binding triples the body of m reads and bumps, in order
+func (e *expect) binds(m string) []string {
+	var out []string
+	for _, r := range e.Reads[m] {
+		if r.Kind == "triple" {
+			out = append(out, r.File)
+		}
+	}
+	return out
+}
+
+// table returns the export table of a file sorted by alias
+func (e *expect) table(m string) []expExport {
+	t := append([]expExport{}, e.Tables[m]...)
+	sort.Slice(t, func(i, j int) bool { return t[i].Alias < t[j].Alias })
+	return t
 }
 
 type gcase struct {
@@ -120,92 +159,113 @@ func effectString(e []interface{}) string {
 // ---------------------------------------------------------------------------
 // the source program of a graph (the projection graph -> JavaScript)
 
-type bindLocal struct {
-	target string // file whose bindings are read
-	suffix string // local names are v_<suffix>, c_<suffix>, bump_<suffix>
-}
+// local name of a binding imported from module via under the name alias
+func local(alias, via string) string { return alias + "_of_" + via }
 
-// bindLocals lists, in source order, the bindings the body of f reads and bumps
-func (c *gcase) bindLocals(f *gfile) []bindLocal {
-	var out []bindLocal
-	for _, imp := range f.Imports {
-		if !imp.Bind {
-			continue
-		}
-		t := c.file(imp.To)
-		if t.Exports {
-			out = append(out, bindLocal{t.Name, t.Name})
-		}
-		for _, x := range t.Reexp {
-			if c.file(x).Exports {
-				out = append(out, bindLocal{x, t.Name + "_" + x})
-			}
-		}
-	}
-	return out
-}
-
+// render writes the source text of one module.  Every name a statement imports or re-exports comes from the export
+// tables the specification computed (expect.tables); `export *` is the only statement whose meaning the text leaves
+// to the ES semantics.
 func (c *gcase) render(f *gfile, isUserEntry bool) string {
 	var sb strings.Builder
 	m := f.Name
 	for _, imp := range f.Imports {
-		t := c.file(imp.To)
 		var specs []string
 		if imp.Bind {
-			if t.Exports {
-				specs = append(specs, fmt.Sprintf("v as v_%s, c as c_%s, bump as bump_%s", t.Name, t.Name, t.Name))
-			}
-			for _, x := range t.Reexp {
-				if c.file(x).Exports {
-					specs = append(specs, fmt.Sprintf("v_%s as v_%s_%s, c_%s as c_%s_%s, bump_%s as bump_%s_%s", x, t.Name, x, x, t.Name, x, x, t.Name, x))
-				}
+			for _, x := range c.Expect.table(imp.To) {
+				specs = append(specs, fmt.Sprintf("%s as %s", x.Alias, local(x.Alias, imp.To)))
 			}
 		}
 		if len(specs) > 0 {
-			fmt.Fprintf(&sb, "import { %s } from './%s.js';\n", strings.Join(specs, ", "), t.Name)
+			fmt.Fprintf(&sb, "import { %s } from './%s.js';\n", strings.Join(specs, ", "), imp.To)
 		} else {
-			fmt.Fprintf(&sb, "import './%s.js';\n", t.Name)
+			fmt.Fprintf(&sb, "import './%s.js';\n", imp.To)
 		}
 	}
+	edges := []grx{}
 	for _, x := range f.Reexp {
-		if c.file(x).Exports {
-			fmt.Fprintf(&sb, "export { v as v_%s, c as c_%s, bump as bump_%s } from './%s.js';\n", x, x, x, x)
-		} else {
-			fmt.Fprintf(&sb, "export {} from './%s.js';\n", x)
+		edges = append(edges, grx{To: x, Kind: "rename"})
+	}
+	edges = append(edges, f.Rx...)
+	for _, e := range edges {
+		tab := c.Expect.table(e.To)
+		switch e.Kind {
+		case "star":
+			fmt.Fprintf(&sb, "export * from './%s.js';\n", e.To)
+		case "ns":
+			fmt.Fprintf(&sb, "export * as ns_%s from './%s.js';\n", e.To, e.To)
+		case "named", "rename":
+			var specs []string
+			for _, x := range tab {
+				if e.Kind == "rename" {
+					specs = append(specs, fmt.Sprintf("%s as %s_%s", x.Alias, x.Alias, e.To))
+				} else {
+					specs = append(specs, x.Alias)
+				}
+			}
+			fmt.Fprintf(&sb, "export { %s } from './%s.js';\n", strings.Join(specs, ", "), e.To)
+		case "imex":
+			var imps, exps []string
+			for _, x := range tab {
+				l := x.Alias + "_ie_" + e.To
+				imps = append(imps, fmt.Sprintf("%s as %s", x.Alias, l))
+				exps = append(exps, fmt.Sprintf("%s as %s", l, x.Alias))
+			}
+			if len(imps) > 0 {
+				fmt.Fprintf(&sb, "import { %s } from './%s.js';\nexport { %s };\n", strings.Join(imps, ", "), e.To, strings.Join(exps, ", "))
+			} else {
+				fmt.Fprintf(&sb, "import './%s.js';\n", e.To)
+			}
 		}
 	}
+	x := f.Sfx
 	fmt.Fprintf(&sb, "__probe(%q, \"start:%s=0\");\n", m, m)
-	fmt.Fprintf(&sb, "let id = %d;\nfunction helper() { return id }\n", f.Base)
-	fmt.Fprintf(&sb, "__probe(%q, \"helper:%s=\" + helper());\n", m, m)
+	fmt.Fprintf(&sb, "let id%s = %d;\nfunction helper%s() { return id%s }\n", x, f.Base, x, x)
+	fmt.Fprintf(&sb, "__probe(%q, \"helper:%s=\" + helper%s());\n", m, m, x)
 	if f.Exports {
 		sum := []string{}
 		for _, imp := range f.Imports {
-			if imp.Bind && c.file(imp.To).Exports {
-				sum = append(sum, "v_"+imp.To)
+			if t := c.file(imp.To); imp.Bind && t.Exports {
+				sum = append(sum, local("v"+t.Sfx, t.Name))
 			}
 		}
 		if len(sum) == 0 {
 			sum = []string{"0"}
 		}
-		fmt.Fprintf(&sb, "export let v = %d + 2 * (%s);\nexport let c = 0;\nexport function bump() { c += 1; return c }\n", f.Base, strings.Join(sum, " + "))
-		fmt.Fprintf(&sb, "__probe(%q, \"own:%s=\" + v);\n", m, m)
+		fmt.Fprintf(&sb, "export let v%s = %d + 2 * (%s);\nexport let c%s = 0;\nexport function bump%s() { c%s += 1; return c%s }\n", x, f.Base, strings.Join(sum, " + "), x, x, x, x)
+		fmt.Fprintf(&sb, "__probe(%q, \"own:%s=\" + v%s);\n", m, m, x)
 	}
-	locals := c.bindLocals(f)
-	for _, b := range locals {
-		fmt.Fprintf(&sb, "__probe(%q, \"read:%s=\" + v_%s);\n", m, b.target, b.suffix)
-		fmt.Fprintf(&sb, "{ const before = c_%s; bump_%s(); __probe(%q, \"bump:%s=\" + (c_%s - before)); }\n", b.suffix, b.suffix, m, b.target, b.suffix)
+	if f.Dflt {
+		fmt.Fprintf(&sb, "export default helper%s() * 1000;\n", x)
+	}
+	reads := c.Expect.Reads[m]
+	for _, r := range reads {
+		l := local(r.Alias, r.Via)
+		switch r.Kind {
+		case "triple":
+			cl, bl := local(r.CAlias, r.Via), local(r.BAlias, r.Via)
+			fmt.Fprintf(&sb, "__probe(%q, \"read:%s=\" + %s);\n", m, r.File, l)
+			fmt.Fprintf(&sb, "{ const before = %s; %s(); __probe(%q, \"bump:%s=\" + (%s - before)); }\n", cl, bl, m, r.File, cl)
+		case "default":
+			fmt.Fprintf(&sb, "__probe(%q, \"dflt:%s=\" + %s);\n", m, r.File, l)
+		case "ns":
+			fmt.Fprintf(&sb, "__probe(%q, \"ns:%s=\" + Object.keys(%s).length);\n", m, r.File, l)
+		}
 	}
 	for _, d := range f.Dyn {
-		fmt.Fprintf(&sb, "__track(%q, import('./%s.js').then((ns) => __probe(%q, \"dyn:%s=\" + (ns.v === undefined ? -1 : ns.v))));\n", m, d, m, d)
+		// every name of the namespace is read; its `v` and the number of names are reported
+		fmt.Fprintf(&sb, "__track(%q, import('./%s.js').then((ns) => { for (const k of Object.keys(ns)) void ns[k]; __probe(%q, \"dyn:%s=\" + (ns.v%s === undefined ? -1 : ns.v%s)); __probe(%q, \"dynkeys:%s=\" + Object.keys(ns).length) }));\n",
+			m, d, m, d, c.file(d).Sfx, c.file(d).Sfx, m, d)
 	}
 	if isUserEntry {
 		var peeks, pokes []string
-		for _, b := range locals {
-			peeks = append(peeks, fmt.Sprintf("[%q, v_%s, c_%s]", b.target, b.suffix, b.suffix))
-			pokes = append(pokes, fmt.Sprintf("bump_%s();", b.suffix))
+		for _, r := range reads {
+			if r.Kind == "triple" {
+				peeks = append(peeks, fmt.Sprintf("[%q, %s, %s]", r.File, local(r.Alias, r.Via), local(r.CAlias, r.Via)))
+				pokes = append(pokes, fmt.Sprintf("%s();", local(r.BAlias, r.Via)))
+			}
 		}
-		fmt.Fprintf(&sb, "export function peek() { return [%s] }\n", strings.Join(peeks, ", "))
-		fmt.Fprintf(&sb, "export function poke() { %s }\n", strings.Join(pokes, " "))
+		fmt.Fprintf(&sb, "export function peek_%s() { return [%s] }\n", m, strings.Join(peeks, ", "))
+		fmt.Fprintf(&sb, "export function poke_%s() { %s }\n", m, strings.Join(pokes, " "))
 	}
 	fmt.Fprintf(&sb, "__probe(%q, \"end:%s=0\");\n", m, m)
 	return sb.String()
@@ -368,12 +428,19 @@ type srEmitted struct {
 	Assigns    []srEmAssign `json:"assigns"`
 	ParseError bool         `json:"parseError"`
 }
+type srEexport struct {
+	Entry int    `json:"entry"`
+	File  int    `json:"file"`
+	Name  string `json:"name"`
+}
 type stateRecord struct {
 	ID      int         `json:"id"`
 	Files   []srFile    `json:"files"`
 	Entries []int       `json:"entries"`
 	Chunks  []srChunk   `json:"chunks"`
 	Emitted []srEmitted `json:"emitted"`
+	// what the entry points export according to the specification (TableOf), in the linker's file ids
+	Eexports []srEexport `json:"eexports"`
 	// not serialised
 	cs     *gcase
 	config string
@@ -392,6 +459,7 @@ type nodeJob struct {
 	ID         string   `json:"id"`
 	Dir        string   `json:"dir"`
 	Entries    []string `json:"entries"`
+	Names      []string `json:"names"` // entry point i exports the observers peek_<name>, poke_<name>
 	Sequences  [][]int  `json:"sequences"`
 	Analyze    bool     `json:"analyze"`
 	NoCopy     bool     `json:"nocopy"`
@@ -500,7 +568,7 @@ func (c *gcase) checkRun(run *nodeRun, entryNames []string) []string {
 			continue
 		}
 		m, s := t[0], t[1]
-		if strings.HasPrefix(s, "dyn:") {
+		if strings.HasPrefix(s, "dyn:") || strings.HasPrefix(s, "dynkeys:") {
 			perAsync[m] = append(perAsync[m], s)
 			if _, ended := endAt[m]; !ended {
 				bad = append(bad, fmt.Sprintf("module %s: dynamic import result %q before the end of its body", m, s))
@@ -543,7 +611,7 @@ func (c *gcase) checkRun(run *nodeRun, entryNames []string) []string {
 		// every module whose bindings the body reads is evaluated before the body starts.  (A module that is only
 		// re-exported or imported for its side effects may run later than in the unsplit program: that is the
 		// documented limitation about the relative order of different modules' top-level code.)
-		for _, d := range c.Expect.Binds[m] {
+		for _, d := range c.Expect.binds(m) {
 			de, ok := endAt[d]
 			if !ok || de > startAt[m] {
 				bad = append(bad, fmt.Sprintf("module %s started before %s, whose bindings it reads, was evaluated", m, d))
@@ -592,22 +660,12 @@ func (c *gcase) checkRun(run *nodeRun, entryNames []string) []string {
 		}
 		for _, s := range snaps {
 			e := entryNames[s.Entry]
-			want := map[string]interface{}{"peek": "fn", "poke": "fn"}
-			for _, x := range c.Expect.Exports[e] {
-				switch x.Name {
-				case "v":
-					want[x.Alias] = c.Expect.Val[x.File]
-				case "c":
-					want[x.Alias] = counters[x.File]
-				default:
-					want[x.Alias] = "fn"
-				}
-			}
+			want := c.wantNamespace(e, counters, 0)
 			if g, w := normJSON(s.NS), normJSON(want); g != w {
 				bad = append(bad, fmt.Sprintf("%s: namespace of %s is %s, expected %s", stage, e, g, w))
 			}
 			wantPeek := [][]interface{}{}
-			for _, t := range c.Expect.Binds[e] {
+			for _, t := range c.Expect.binds(e) {
 				wantPeek = append(wantPeek, []interface{}{t, c.Expect.Val[t], counters[t]})
 			}
 			gotPeek := s.Peek
@@ -621,12 +679,35 @@ func (c *gcase) checkRun(run *nodeRun, entryNames []string) []string {
 	}
 	checkSnaps("after load", run.After)
 	for _, e := range loadedEntries {
-		for _, t := range c.Expect.Binds[e] {
+		for _, t := range c.Expect.binds(e) {
 			counters[t]++
 		}
 	}
 	checkSnaps("after poke", run.Poked)
 	return bad
+}
+
+// wantNamespace is the namespace object of module m the specification predicts: every alias of its export table
+// with the value of the binding it resolves to (a namespace re-export nests the namespace of its target)
+func (c *gcase) wantNamespace(m string, counters map[string]int, depth int) map[string]interface{} {
+	want := map[string]interface{}{}
+	for _, x := range c.Expect.Tables[m] {
+		switch x.Kind {
+		case "v":
+			want[x.Alias] = c.Expect.Val[x.File]
+		case "c":
+			want[x.Alias] = counters[x.File]
+		case "default":
+			want[x.Alias] = c.Expect.Dval[x.File]
+		case "ns":
+			if depth < 6 {
+				want[x.Alias] = c.wantNamespace(x.File, counters, depth+1)
+			}
+		default:
+			want[x.Alias] = "fn"
+		}
+	}
+	return want
 }
 
 func normJSON(v interface{}) string {
@@ -792,8 +873,26 @@ func (c *gcase) comparePartition(d *ldData) (diff []string, shared int) {
 		}
 		return setKey(ns)
 	}
+	// a shared chunk that holds nothing but esbuild's runtime helpers (needed for namespace objects; the runtime is
+	// reachable from every entry point) is outside the alphabet of the specification, as the runtime file is
+	helperOnly := map[int]bool{}
+	for i, ch := range d.Chunks {
+		n := 0
+		for _, f := range ch.Files {
+			if user[nameOf[f]] {
+				n++
+			}
+		}
+		if n == 0 && !ch.IsEntry && len(ch.Files) > 0 {
+			helperOnly[i] = true
+		}
+	}
 	real := map[string]realChunk{}
-	for _, ch := range d.Chunks {
+	for ci, ch := range d.Chunks {
+		if helperOnly[ci] {
+			shared++
+			continue
+		}
 		rc := realChunk{}
 		for _, b := range ch.Bits {
 			rc.Bits = append(rc.Bits, entryName(b))
@@ -809,7 +908,7 @@ func (c *gcase) comparePartition(d *ldData) (diff []string, shared int) {
 			shared++
 		}
 		for _, imp := range ch.Imports {
-			if imp.Chunk < 0 || imp.Chunk >= len(d.Chunks) {
+			if imp.Chunk < 0 || imp.Chunk >= len(d.Chunks) || helperOnly[imp.Chunk] {
 				continue
 			}
 			k := bitsKey(d.Chunks[imp.Chunk].Bits)
@@ -865,7 +964,30 @@ func (c *gcase) comparePartition(d *ldData) (diff []string, shared int) {
 
 func makeRecord(c *gcase, b *builtSplit, an []anFile) *stateRecord {
 	d := b.link
-	rec := &stateRecord{cs: c, config: b.cfg.Name, Files: []srFile{}, Entries: []int{}, Chunks: []srChunk{}, Emitted: []srEmitted{}}
+	rec := &stateRecord{cs: c, config: b.cfg.Name, Files: []srFile{}, Entries: []int{}, Chunks: []srChunk{}, Emitted: []srEmitted{}, Eexports: []srEexport{}}
+	idOf := map[string]int{}
+	nameOfID := map[int]string{}
+	for _, f := range d.Files {
+		idOf[nameOfPretty(f.Pretty)] = f.Idx + 1
+		nameOfID[f.Idx+1] = nameOfPretty(f.Pretty)
+	}
+	for _, e := range c.Expect.AllEntries {
+		for _, x := range c.Expect.Tables[e] {
+			if idOf[e] > 0 && idOf[x.File] > 0 {
+				rec.Eexports = append(rec.Eexports, srEexport{Entry: idOf[e], File: idOf[x.File], Name: x.Name})
+			}
+		}
+	}
+	// the linker's name of a symbol in the vocabulary of the specification
+	specName := func(file int, orig string) string {
+		switch orig {
+		case nameOfID[file] + "_default":
+			return "default"
+		case nameOfID[file] + "_exports", "exports":
+			return "*"
+		}
+		return orig
+	}
 	entryFile := func(bit int) int {
 		if bit < 0 || bit >= len(d.Entries) {
 			return -1
@@ -909,7 +1031,7 @@ func makeRecord(c *gcase, b *builtSplit, an []anFile) *stateRecord {
 		}
 		sort.Strings(aliases)
 		for _, a := range aliases {
-			sc.Exports = append(sc.Exports, srExport{Alias: a, File: ch.Exports[a].File + 1, Name: ch.Exports[a].Name})
+			sc.Exports = append(sc.Exports, srExport{Alias: a, File: ch.Exports[a].File + 1, Name: specName(ch.Exports[a].File+1, ch.Exports[a].Name)})
 		}
 		for _, from := range ch.ImportsFrom {
 			for _, a := range from.Aliases {
@@ -1098,11 +1220,11 @@ func prepareCase(r *core.Run, idx int, c *gcase, configs []buildConfig) *prepare
 	}
 	// node jobs: the source natively (one order per subset: the prediction does not depend on the order),
 	// the unsplit bundles, the split outputs (every subset in every order)
-	p.jobs = []nodeJob{{ID: p.jobID("native"), Dir: filepath.Join(root, "src"), Entries: entryFiles, Sequences: subsetSequences(p.seqs)}}
+	p.jobs = []nodeJob{{ID: p.jobID("native"), Dir: filepath.Join(root, "src"), Entries: entryFiles, Names: c.Entries, Sequences: subsetSequences(p.seqs)}}
 	for minify, dirs := range p.unsplitDirs {
 		for ei, e := range c.Entries {
 			if _, err := os.Stat(filepath.Join(dirs[e], e+".js")); err == nil {
-				p.jobs = append(p.jobs, nodeJob{ID: p.jobID(fmt.Sprintf("unsplit/%v/%d", minify, ei)), Dir: dirs[e], Entries: []string{e + ".js"}, Sequences: [][]int{{0}}})
+				p.jobs = append(p.jobs, nodeJob{ID: p.jobID(fmt.Sprintf("unsplit/%v/%d", minify, ei)), Dir: dirs[e], Entries: []string{e + ".js"}, Names: []string{e}, Sequences: [][]int{{0}}})
 			}
 		}
 	}
@@ -1110,7 +1232,7 @@ func prepareCase(r *core.Run, idx int, c *gcase, configs []buildConfig) *prepare
 		if len(b.errors) > 0 || b.nOutputs == 0 {
 			continue
 		}
-		job := nodeJob{ID: p.jobID(fmt.Sprintf("split/%d", si)), Dir: b.outdir, Entries: b.entries, Sequences: p.seqs, Analyze: true, PublicPath: b.public}
+		job := nodeJob{ID: p.jobID(fmt.Sprintf("split/%d", si)), Dir: b.outdir, Entries: b.entries, Names: c.Entries, Sequences: p.seqs, Analyze: true, PublicPath: b.public}
 		if si >= 2 {
 			job.Sequences = subsetSequences(p.seqs)
 		}
@@ -1239,39 +1361,66 @@ func evaluateCase(r *core.Run, p *prepared, byID map[string]*nodeResult) (out ca
 type genCfg struct{ name, text string }
 
 // genConfigs derives the generator configurations from spec/cfg/LinkGen.quick.cfg: the family is cut into
-// slices by shape (k entry points, n modules), one TLC run each, because TLC computes initial states (one
-// per graph) with a single thread.  quick: a seeded slice of two variants per incidence pattern;
-// thorough: every variant of every pattern up to k=3, n=3 and k=2, n=4, and a seeded slice for k=3, n=4.
+// slices (incidence family by shape = k entry points over n modules, re-export chain family, name-collision
+// family), one TLC run each, because TLC computes initial states (one per graph) with a single thread.
+// quick: a seeded slice (one variant per incidence pattern up to k=3, n=2 and k=2, n=4 and of half of the patterns
+// of k=3, n=3; one sixteenth of the re-export chains; every naming of k=2, n=3 and an eighth of the other namings);
+// thorough: every variant of every pattern up to k=3, n=3 and k=2, n=4, a seeded slice (two variants per
+// pattern) of k=3, n=4, every re-export chain and every naming.
 func genConfigs(r *core.Run) ([]genCfg, error) {
 	b, err := os.ReadFile(filepath.Join(r.Verif, "spec", "cfg", "LinkGen.quick.cfg"))
 	if err != nil {
 		return nil, err
 	}
 	tmpl := string(b)
-	if !strings.Contains(tmpl, "\n  Shapes <- ShapesQuick\n") || !strings.Contains(tmpl, "\n  Pick = 1\n") {
-		return nil, fmt.Errorf("unexpected shape of LinkGen.quick.cfg")
+	for _, line := range []string{"Shapes <- ShapesQuick", "Pick = 1", "PickTwo = TRUE", "Half = 0", "ChainPick = 1", "ChainDiv = 12", "NamePick = 1"} {
+		if !strings.Contains(tmpl, "\n  "+line+"\n") {
+			return nil, fmt.Errorf("unexpected shape of LinkGen.quick.cfg (no line %q)", line)
+		}
 	}
 	pick := int(r.Seed % 1000)
 	if pick <= 0 {
 		pick = 1
 	}
-	if !strings.Contains(tmpl, "\n  Half = 0\n") {
-		return nil, fmt.Errorf("unexpected shape of LinkGen.quick.cfg")
+	type slice struct {
+		shapes              string
+		pick                int
+		two                 bool
+		half                int
+		chainPick, chainDiv int
+		namePick            int
 	}
-	mk := func(shapes string, pick, half int) genCfg {
+	mk := func(name string, x slice) genCfg {
 		// (the constant lines, not the header comment)
-		t := strings.Replace(tmpl, "\n  Shapes <- ShapesQuick\n", "\n  Shapes <- "+shapes+"\n", 1)
-		t = strings.Replace(t, "\n  Pick = 1\n", fmt.Sprintf("\n  Pick = %d\n", pick), 1)
-		t = strings.Replace(t, "\n  Half = 0\n", fmt.Sprintf("\n  Half = %d\n", half), 1)
-		return genCfg{fmt.Sprintf("LinkGen.%s.%d.cfg", shapes, half), t}
+		rep := func(t, old, new string) string { return strings.Replace(t, "\n  "+old+"\n", "\n  "+new+"\n", 1) }
+		t := rep(tmpl, "Shapes <- ShapesQuick", "Shapes <- "+x.shapes)
+		t = rep(t, "Pick = 1", fmt.Sprintf("Pick = %d", x.pick))
+		t = rep(t, "PickTwo = TRUE", fmt.Sprintf("PickTwo = %s", strings.ToUpper(fmt.Sprint(x.two))))
+		t = rep(t, "Half = 0", fmt.Sprintf("Half = %d", x.half))
+		t = rep(t, "ChainPick = 1", fmt.Sprintf("ChainPick = %d", x.chainPick))
+		t = rep(t, "ChainDiv = 12", fmt.Sprintf("ChainDiv = %d", x.chainDiv))
+		t = rep(t, "NamePick = 1", fmt.Sprintf("NamePick = %d", x.namePick))
+		return genCfg{"LinkGen." + name + ".cfg", t}
+	}
+	inc := func(shapes string, pick int, two bool, half int) genCfg {
+		return mk(fmt.Sprintf("%s.%d", shapes, half), slice{shapes: shapes, pick: pick, two: two, half: half, chainPick: 9999, chainDiv: 1, namePick: 9999})
+	}
+	chains := func(pick, div, half int) genCfg {
+		return mk(fmt.Sprintf("chains.%d", half), slice{shapes: "ShapesNone", pick: 1, half: half, chainPick: pick, chainDiv: div, namePick: 9999})
+	}
+	names := func(pick, half int) genCfg {
+		return mk(fmt.Sprintf("names.%d", half), slice{shapes: "ShapesNone", pick: 1, half: half, chainPick: 9999, chainDiv: 1, namePick: pick})
 	}
 	if !r.Thorough() {
-		return []genCfg{mk("ShapesQuickA", pick, 1), mk("ShapesQuickA", pick, 2), mk("ShapesQuickB", pick, 0)}, nil
+		// (k=3 over 3 modules: the half of the patterns chosen by the seed)
+		return []genCfg{inc("ShapesQuickB", pick, false, 0), chains(pick, 16, 1), chains(pick, 16, 2), inc("ShapesQuickA", pick, false, 1+pick%2),
+			names(pick, 0)}, nil
 	}
-	// the big shapes first, each spread over two runs
-	out := []genCfg{mk("S33", 0, 1), mk("S33", 0, 2), mk("S34", pick, 1), mk("S34", pick, 2)}
+	// the big slices first, each spread over two runs
+	out := []genCfg{chains(0, 1, 1), chains(0, 1, 2), inc("S33", 0, true, 1), inc("S33", 0, true, 2), inc("S34", pick, true, 1), inc("S34", pick, true, 2),
+		names(0, 1), names(0, 2)}
 	for _, s := range []string{"S24", "S32", "S23", "S22", "S31", "S21"} {
-		out = append(out, mk(s, 0, 0))
+		out = append(out, inc(s, 0, true, 0))
 	}
 	return out, nil
 }
@@ -1353,8 +1502,17 @@ func Run(r *core.Run) {
 	}
 	runCases(r, cases, func(i int) []buildConfig {
 		configs := []buildConfig{cfgPlain}
-		if r.Thorough() {
+		if v := cases[i].Variant; r.Thorough() && (v == "names" || v == "rxchain") {
+			// (the big new families: a third configuration for every third graph)
+			configs = append(configs, cfgMinify)
+			if i%3 == 0 {
+				configs = append(configs, extraConfigs[(i/3)%len(extraConfigs)])
+			}
+		} else if r.Thorough() {
 			configs = append(configs, cfgMinify, extraConfigs[i%len(extraConfigs)])
+		} else if v == "names" || v == "rxchain" {
+			// the collision renamers differ with and without minification: both, always
+			configs = append(configs, cfgMinify)
 		} else if (i+int(r.Seed))%2 == 0 {
 			configs = append(configs, cfgMinify)
 		} else if (i+int(r.Seed))%5 == 0 {
@@ -1429,7 +1587,7 @@ func runCases(r *core.Run, cases []*gcase, configsFor func(i int) []buildConfig)
 		}
 		validate(r, append([]*stateRecord{}, records[lo:hi]...))
 	})
-	r.Set("rule", "case = one graph of LinkGen.tla (incidence pattern of k entry points over n modules x feature variant), built with splitting in 1-3 configurations, its link state validated by TLC against Link.tla and its chunks loaded in every subset and order of entry points; non-trivial = the real build produced at least one shared (non-entry) chunk")
+	r.Set("rule", "case = one graph of LinkGen.tla (incidence pattern of k entry points over n modules x feature variant x naming; re-export chain; naming of a shared chunk), built with splitting in 1-3 configurations, its link state validated by TLC against Link.tla and its chunks loaded in every subset and order of entry points; non-trivial = the real build produced at least one shared (non-entry) chunk")
 }
 
 func init() { core.Register("C10", Run) }
